@@ -131,6 +131,13 @@ impl Group for P256Group {
     }
 
     fn deserialize(buf: &Self::Serialization) -> Result<Self::Element, GroupError> {
+        // Only the compressed SEC1 encodings (tags 0x02 and 0x03) are valid here.
+        // `Sec1Point::from_bytes` also accepts other 33-byte forms (e.g. the
+        // "compact" tag 0x05), which would be a second encoding of the same element.
+        if buf[0] != 0x02 && buf[0] != 0x03 {
+            return Err(GroupError::MalformedElement);
+        }
+
         let encoded_point =
             p256::Sec1Point::from_bytes(buf).map_err(|_| GroupError::MalformedElement)?;
 
